@@ -408,8 +408,9 @@ def coq_res(r):
 
 def coq_oracle(entries):
     """entries: list of (leaf, inopt, tree, answer)"""
+    # an entry the runner could not even build is left out: the model then answers XOracle (never a pass)
     return clist(['(%s, %s, %s, %s)' % (coq_leaf(l), 'true' if o else 'false', coq_pv(v), coq_res(r))
-                  for l, o, v, r in entries])
+                  for l, o, v, r in entries if not str(r.get('err', '')).startswith('HarnessBuild')])
 
 
 # ---------------------------------------------------------------------------------- parsing model output
